@@ -2,7 +2,7 @@
 implementation-level oracle used to search for a concrete failing input."""
 import re
 
-from . import gen_kzg, gen_pc, gen_c16
+from . import gen_kzg, gen_pc, gen_c16, gen_c13
 from .oracles import pc_honest, pc_mutations
 
 
@@ -80,6 +80,46 @@ def oracle_kzg_batches(case, lo):
     return fails
 
 
+def oracle_c13(case, lo):
+    fails = []
+    if case.kind != "c13":
+        return fails
+    sub = case.fields["sub"][0]
+    if sub == "indices":
+        n = int(case.fields["n"][0])
+        t = int(case.fields["t"][0])
+        ix = lib_toks(lo, "indices") or []
+        ix = [] if ix == ["-"] else ix
+        if lib_s(lo, "indices_res") == "ok":
+            if len(ix) != t:
+                fails.append("get_indices_from_sponge returned %d positions for t=%d" % (len(ix), t))
+            if any(int(i) >= n for i in ix):
+                fails.append("get_indices_from_sponge returned a position outside the codeword (n=%d)" % n)
+    elif sub == "proofshape":
+        sh = lib_toks(lo, "shape")
+        dims = lib_toks(lo, "dims")
+        if sh and dims:
+            if sh[0] != sh[1]:
+                fails.append("%s honest proof: %s authentication paths for %s columns" % (case.fields["scheme"][0], sh[0], sh[1]))
+            if sh[2] != dims[1]:
+                fails.append("%s honest proof: opened combination of length %s for rows of length %s" % (case.fields["scheme"][0], sh[2], dims[1]))
+            if (lib_toks(lo, "col_lens") or ["-"]) not in (["-"], [dims[0]]):
+                fails.append("%s honest proof: opened columns do not have n_rows=%s entries" % (case.fields["scheme"][0], dims[0]))
+            if any(int(i) >= int(dims[2]) for i in (lib_toks(lo, "leaf_idx") or []) if i != "-"):
+                fails.append("%s honest proof opens a position outside the codeword" % case.fields["scheme"][0])
+        if lib_s(lo, "check") not in (None, "accept"):
+            fails.append("%s honest single opening not accepted" % case.fields["scheme"][0])
+    elif sub == "encode":
+        if lib_s(lo, "encode") == "ok" and lib_s(lo, "linear") != "holds":
+            fails.append("%s row encoding is not linear: E(a*x+b*y) != a*E(x)+b*E(y)" % case.fields["scheme"][0])
+    return fails
+
+
+def cmp_c13_t(lib_toks_, model_toks):
+    """calculate_t: accept the exact minimum for |F| or for 2^bits (see DESIGN.md, C13)"""
+    return len(lib_toks_) == 1 and lib_toks_[0] in model_toks
+
+
 def lib_toks(lo, name):
     v = lo.get(name)
     return v[1] if v else None
@@ -151,5 +191,12 @@ PROPS = {
         "oracles": [oracle_kzg_muts, pc_honest, lambda c, lo: pc_mutations(c, lo, ("value", "comm_swap", "cancel", "proof_mut"))],
         "accept_diffs": ("mut.", "batch."),
         "title": "Verifiers decide the published relation",
+    },
+    "C13": {
+        "props_file": "props/C13.v",
+        "flows": [(gen_c13.gen, "c13", 1500, 30000)],
+        "oracles": [oracle_c13],
+        "comparators": {"t": cmp_c13_t, "npaths": cmp_c13_t, "ncols": cmp_c13_t},
+        "title": "Column openings match the security level",
     },
 }
